@@ -243,60 +243,88 @@ theorem finish_agrees (rule : FrameRule) (lv : Nat) (L : Level) (slot : Option F
     simp only [finish, ho, Option.map_some, Agrees]
     exact ⟨this.2, this.1⟩
 
-theorem run_agrees (rule : FrameRule) (bottom : Bool) (levels : List Level) :
+theorem step_agrees (rule : FrameRule) (lv : Nat) (anc : List Frame) (L : Level) (last : Bool) (child : Run)
+    (cref : Option (Nat × List Frame)) (hc : Agrees child.out cref) :
+    Agrees (step rule lv anc L last child).out (refStep lv L cref) := by
+  simp only [step, refStep]
+  cases hco : child.out with
+  | none =>
+    rw [hco] at hc
+    cases cref with
+    | some _ => simp [Agrees] at hc
+    | none =>
+      simp only
+      exact finish_agrees rule lv L none
+  | some e =>
+    rw [hco] at hc
+    cases cref with
+    | none => simp [Agrees] at hc
+    | some p =>
+      obtain ⟨tok, fs⟩ := p
+      obtain ⟨htok, hinv⟩ := hc
+      have ha := arrive_frames L.await lv (!last) e fs hinv
+      simp only
+      cases hh : L.handler with
+      | pass =>
+        have := escape_inv rule (arrive L.await lv (!last) e).2 (arrive L.await lv (!last) e).1
+          (.task lv :: fs) (by rw [ha.2.2.1, ha.2.2.2]; exact hinv.same) ha.1
+        simp only [Agrees]
+        exact ⟨by rw [this.2, ha.2.1, htok], this.1⟩
+      | bare =>
+        have := escape_inv rule (arrive L.await lv (!last) e).2 (arrive L.await lv (!last) e).1
+          (.task lv :: fs) (by rw [ha.2.2.1, ha.2.2.2]; exact hinv.same) ha.1
+        simp only [Agrees]
+        exact ⟨by rw [this.2, ha.2.1, htok], this.1⟩
+      | named =>
+        have := escape_inv rule (arrive L.await lv (!last) e).2 (arrive L.await lv (!last) e).1
+          (.task lv :: fs) (by rw [ha.2.2.1, ha.2.2.2]; exact hinv.same) ha.1
+        simp only [Agrees]
+        exact ⟨by rw [this.2, ha.2.1, htok], this.1⟩
+      | raiseNew h =>
+        have := escape_fresh rule (arrive L.await lv (!last) e).2 (newTok lv) lv h
+        simp only [Agrees]
+        exact ⟨this.2, this.1⟩
+      | swallow =>
+        simp only
+        exact finish_agrees rule lv L _
+
+theorem userFrames_hookFrames (lv h : Nat) : userFrames (hookFrames lv h) = hookFrames lv h := by
+  simp only [userFrames, hookFrames, List.filter_cons, isUser]
+  simp only [if_true, List.cons.injEq, true_and]
+  rw [List.filter_eq_self]
+  intro f hf
+  simp only [List.mem_map] at hf
+  obtain ⟨k, _, rfl⟩ := hf
+  rfl
+
+/-- a hook that raises while the scheduler suspends / continues the task: the stored traceback ends at the hook -/
+theorem hookFails_agrees (lv h : Nat) : Agrees (some (hookFails lv h)) (some (hookTok, hookFrames lv h)) := by
+  simp only [Agrees, hookFails, acceptError, prepareForReraise, unwind, fresh]
+  refine ⟨by simp, ⟨by simp, ?_, by simp⟩⟩
+  have := userFrames_hookFrames lv h
+  simp_all [userFrames, isUser]
+
+/-- the error stored on each task of the chain agrees with the reference semantics -/
+theorem run_agrees (rule : FrameRule) (bottom : Bottom) (levels : List Level) :
     ∀ (lv : Nat) (anc : List Frame), Agrees (run rule bottom lv anc levels).out (ref bottom lv levels) := by
   induction levels with
   | nil =>
     intro lv anc
     cases bottom
     · simp [run, ref, Agrees]
-    · simp only [run, ref, Agrees, if_true]
+    · simp only [run, ref, Agrees, beq_self_eq_true, if_true]
       exact ⟨rfl, inv_fresh _⟩
+    · simp [run, ref, Agrees]
   | cons L rest ih =>
     intro lv anc
     have hc := ih (lv + 1) (anc ++ [.task lv])
-    simp only [run, ref]
-    cases hco : (run rule bottom (lv + 1) (anc ++ [.task lv]) rest).out with
-    | none =>
-      rw [hco] at hc
-      cases hr : ref bottom (lv + 1) rest with
-      | some _ => simp [Agrees, hr] at hc
-      | none =>
-        simp only
-        exact finish_agrees rule lv L none
-    | some e =>
-      rw [hco] at hc
-      cases hr : ref bottom (lv + 1) rest with
-      | none => simp [Agrees, hr] at hc
-      | some p =>
-        obtain ⟨tok, fs⟩ := p
-        rw [hr] at hc
-        obtain ⟨htok, hinv⟩ := hc
-        have ha := arrive_frames L.await lv (!rest.isEmpty) e fs hinv
-        simp only
-        cases hh : L.handler with
-        | pass =>
-          have := escape_inv rule (arrive L.await lv (!rest.isEmpty) e).2 (arrive L.await lv (!rest.isEmpty) e).1
-            (.task lv :: fs) (by rw [ha.2.2.1, ha.2.2.2]; exact hinv.same) ha.1
-          simp only [Agrees]
-          exact ⟨by rw [this.2, ha.2.1, htok], this.1⟩
-        | bare =>
-          have := escape_inv rule (arrive L.await lv (!rest.isEmpty) e).2 (arrive L.await lv (!rest.isEmpty) e).1
-            (.task lv :: fs) (by rw [ha.2.2.1, ha.2.2.2]; exact hinv.same) ha.1
-          simp only [Agrees]
-          exact ⟨by rw [this.2, ha.2.1, htok], this.1⟩
-        | named =>
-          have := escape_inv rule (arrive L.await lv (!rest.isEmpty) e).2 (arrive L.await lv (!rest.isEmpty) e).1
-            (.task lv :: fs) (by rw [ha.2.2.1, ha.2.2.2]; exact hinv.same) ha.1
-          simp only [Agrees]
-          exact ⟨by rw [this.2, ha.2.1, htok], this.1⟩
-        | raiseNew h =>
-          have := escape_fresh rule (arrive L.await lv (!rest.isEmpty) e).2 (newTok lv) lv h
-          simp only [Agrees]
-          exact ⟨this.2, this.1⟩
-        | swallow =>
-          simp only
-          exact finish_agrees rule lv L _
+    cases rest with
+    | nil =>
+      cases bottom with
+      | hook r h => simpa only [run, ref, hookRun] using hookFails_agrees lv h
+      | none => simpa only [run, ref] using step_agrees rule lv anc L _ _ _ hc
+      | errFuture => simpa only [run, ref] using step_agrees rule lv anc L _ _ _ hc
+    | cons L' rest' => simpa only [run, ref] using step_agrees rule lv anc L _ _ _ hc
 
 /-! ### the asynq stack -/
 
@@ -333,7 +361,7 @@ theorem ownDeepest_user (f : Frame) (fs : List Frame) (h : ∀ g ∈ fs, isUser 
     have hg := h g (by simp)
     cases g with
     | lib _ => simp [isUser] at hg
-    | caller | task _ | helper _ _ | orphan _ =>
+    | caller | task _ | helper _ _ | orphan _ | hook _ | hookHelper _ _ =>
       simp only [ownDeepest]
       cases gs with
       | nil => simp [ownDeepest]
@@ -377,20 +405,52 @@ theorem arrive_slot (aw : Await) (lv : Nat) (via : Bool) (e : Err) :
   subst hf
   rfl
 
-theorem run_lines_length (rule : FrameRule) (bottom : Bool) (levels : List Level) :
-    ∀ (lv : Nat) (anc : List Frame), (run rule bottom lv anc levels).lines.length = levels.length := by
-  induction levels with
-  | nil => intros; simp [run]
-  | cons L rest ih =>
-    intro lv anc
-    have := ih (lv + 1) (anc ++ [.task lv])
-    simp only [run]
+/-- the line a finished level shows belongs to that level, unless it let the exception of a synchronously called
+    child pass under the `deepest` rule -/
+theorem step_line (rule : FrameRule) (lv : Nat) (anc : List Frame) (L : Level) (last : Bool) (child : Run)
+    (hL : rule = .own ∨ (L.await == .yld || (match L.handler with | .raiseNew _ | .swallow => true | _ => false)) = true) :
+    (step rule lv anc L last child).lines.map levelTok = lv :: child.lines.map levelTok := by
+  simp only [step]
+  split
+  · simp only [List.map_cons, List.cons.injEq, and_true]
+    exact finish_line rule lv L none (by simp)
+  · rename_i e _
+    have hslot := arrive_slot L.await lv (!last) e
     split
-    · simp [this]
-    · split <;> simp [this]
+    · rename_i hh
+      simp only [List.map_cons, List.cons.injEq, and_true]
+      cases ha : L.await with
+      | yld => simp [escape, arrive, levelTok]
+      | sync =>
+        rcases hL with rfl | hL
+        · cases hv : (!last) <;>
+            simp [escape, arrive, unwind, valueRaises, reraise, ownDeepest, levelTok]
+        · simp [ha, hh] at hL
+    · rename_i hh
+      simp only [List.map_cons, List.cons.injEq, and_true]
+      cases ha : L.await with
+      | yld => simp [escape, arrive, levelTok]
+      | sync =>
+        rcases hL with rfl | hL
+        · cases hv : (!last) <;>
+            simp [escape, arrive, unwind, valueRaises, reraise, ownDeepest, levelTok]
+        · simp [ha, hh] at hL
+    · rename_i hh
+      simp only [List.map_cons, List.cons.injEq, and_true]
+      cases ha : L.await with
+      | yld => simp [escape, arrive, levelTok]
+      | sync =>
+        rcases hL with rfl | hL
+        · cases hv : (!last) <;>
+            simp [escape, arrive, unwind, valueRaises, reraise, ownDeepest, levelTok]
+        · simp [ha, hh] at hL
+    · simp only [List.map_cons, List.cons.injEq, and_true]
+      exact escape_fresh_line rule _ _ lv _ hslot
+    · simp only [List.map_cons, List.cons.injEq, and_true]
+      exact finish_line rule lv L _ hslot
 
-/-- under `syncSafe`, the line every finished level shows belongs to that level -/
-theorem run_lines (rule : FrameRule) (bottom : Bool) (levels : List Level)
+/-- under `syncSafe` (or the repaired frame rule), the line every finished level shows belongs to that level -/
+theorem run_lines (rule : FrameRule) (bottom : Bottom) (levels : List Level)
     (hsafe : rule = .own ∨ syncSafe levels = true) :
     ∀ (lv : Nat) (anc : List Frame), (run rule bottom lv anc levels).lines.map levelTok = List.range' lv levels.length := by
   induction levels with
@@ -408,78 +468,64 @@ theorem run_lines (rule : FrameRule) (bottom : Bool) (levels : List Level)
       · simp only [syncSafe, List.all_cons, Bool.and_eq_true] at h
         exact Or.inr h.1
     have ih' := ih hsafe' (lv + 1) (anc ++ [.task lv])
-    simp only [run, List.length_cons, List.range'_succ]
-    split
-    · simp only [List.map_cons, ih', List.cons.injEq, and_true]
-      exact finish_line rule lv L none (by simp)
-    · rename_i e _
-      have hslot := arrive_slot L.await lv (!rest.isEmpty) e
-      split
-      · -- pass
-        rename_i hh
-        simp only [List.map_cons, ih', List.cons.injEq, and_true]
-        cases ha : L.await with
-        | yld => simp [escape, arrive, levelTok]
-        | sync =>
-          rcases hL with rfl | hL
-          · cases hv : (!rest.isEmpty) <;>
-              simp [escape, arrive, unwind, valueRaises, reraise, ownDeepest, levelTok]
-          · simp [ha, hh] at hL
-      · rename_i hh
-        simp only [List.map_cons, ih', List.cons.injEq, and_true]
-        cases ha : L.await with
-        | yld => simp [escape, arrive, levelTok]
-        | sync =>
-          rcases hL with rfl | hL
-          · cases hv : (!rest.isEmpty) <;>
-              simp [escape, arrive, unwind, valueRaises, reraise, ownDeepest, levelTok]
-          · simp [ha, hh] at hL
-      · rename_i hh
-        simp only [List.map_cons, ih', List.cons.injEq, and_true]
-        cases ha : L.await with
-        | yld => simp [escape, arrive, levelTok]
-        | sync =>
-          rcases hL with rfl | hL
-          · cases hv : (!rest.isEmpty) <;>
-              simp [escape, arrive, unwind, valueRaises, reraise, ownDeepest, levelTok]
-          · simp [ha, hh] at hL
-      · simp only [List.map_cons, ih', List.cons.injEq, and_true]
-        exact escape_fresh_line rule _ _ lv _ hslot
-      · simp only [List.map_cons, ih', List.cons.injEq, and_true]
-        exact finish_line rule lv L _ hslot
+    have hstep := step_line rule lv anc L rest.isEmpty (run rule bottom (lv + 1) (anc ++ [.task lv]) rest) hL
+    rw [ih'] at hstep
+    cases rest with
+    | nil =>
+      cases bottom with
+      | hook r h => simp [run, hookRun, levelTok, List.range'_succ]
+      | none => simpa only [run, List.length_cons, List.range'_succ] using hstep
+      | errFuture => simpa only [run, List.length_cons, List.range'_succ] using hstep
+    | cons L' rest' => simpa only [run, List.length_cons, List.range'_succ] using hstep
+
+theorem step_events (rule : FrameRule) (lv : Nat) (anc : List Frame) (L : Level) (last : Bool) (child : Run)
+    (hanc : anc.map levelTok = List.range lv)
+    (P : Event → Prop) (hP : ∀ k, (k = StackKind.start ∨ k = .handler) → P (.stack k lv (List.range (lv + 1))))
+    (hc : ∀ ev ∈ child.events, P ev) :
+    ∀ ev ∈ (step rule lv anc L last child).events, P ev := by
+  intro ev hev
+  have hhere : (anc ++ [Frame.task lv]).map levelTok = List.range (lv + 1) := by
+    simp [hanc, List.range_succ, levelTok]
+  simp only [step, hhere] at hev
+  split at hev
+  · simp only [List.mem_cons] at hev
+    rcases hev with rfl | hev
+    · exact hP _ (Or.inl rfl)
+    · exact hc ev hev
+  · split at hev <;>
+      (simp only [List.mem_cons, List.mem_append, List.not_mem_nil, or_false, or_assoc] at hev
+       rcases hev with rfl | hev
+       · exact hP _ (Or.inl rfl)
+       · first
+         | exact hc ev hev
+         | (rcases hev with hev | rfl
+            · exact hc ev hev
+            · exact hP _ (Or.inr rfl)))
 
 /-- every event recorded inside the bodies is a stack of the expected levels -/
-theorem run_events (rule : FrameRule) (bottom : Bool) (levels : List Level) :
+theorem run_events (rule : FrameRule) (bottom : Bottom) (levels : List Level) :
     ∀ (lv : Nat) (anc : List Frame), anc.map levelTok = List.range lv →
       ∀ ev ∈ (run rule bottom lv anc levels).events, ∃ k lv', (k = .start ∨ k = .handler) ∧ ev = .stack k lv' (List.range (lv' + 1)) := by
   induction levels with
   | nil => intro lv anc _ ev hev; simp [run] at hev
   | cons L rest ih =>
-    intro lv anc hanc ev hev
+    intro lv anc hanc
     have hhere : (anc ++ [Frame.task lv]).map levelTok = List.range (lv + 1) := by
       simp [hanc, List.range_succ, levelTok]
     have ihc := ih (lv + 1) (anc ++ [.task lv]) hhere
-    have hstart : ∃ k lv', (k = StackKind.start ∨ k = .handler) ∧
-        Event.stack .start lv ((anc ++ [Frame.task lv]).map levelTok) = .stack k lv' (List.range (lv' + 1)) :=
-      ⟨.start, lv, Or.inl rfl, by rw [hhere]⟩
-    have hhandler : ∃ k lv', (k = StackKind.start ∨ k = .handler) ∧
-        Event.stack .handler lv ((anc ++ [Frame.task lv]).map levelTok) = .stack k lv' (List.range (lv' + 1)) :=
-      ⟨.handler, lv, Or.inr rfl, by rw [hhere]⟩
-    simp only [run] at hev
-    split at hev
-    · simp only [List.mem_cons] at hev
-      rcases hev with rfl | hev
-      · exact hstart
-      · exact ihc ev hev
-    · split at hev <;>
-        (simp only [List.mem_cons, List.mem_append, List.not_mem_nil, or_false, or_assoc] at hev
-         rcases hev with rfl | hev
-         · exact hstart
-         · first
-           | exact ihc ev hev
-           | (rcases hev with hev | rfl
-              · exact ihc ev hev
-              · exact hhandler))
+    have hstep := step_events rule lv anc L rest.isEmpty (run rule bottom (lv + 1) (anc ++ [.task lv]) rest) hanc
+      (fun ev => ∃ k lv', (k = StackKind.start ∨ k = .handler) ∧ ev = .stack k lv' (List.range (lv' + 1)))
+      (fun k hk => ⟨k, lv, hk, rfl⟩) ihc
+    cases rest with
+    | nil =>
+      cases bottom with
+      | hook r h =>
+        intro ev hev
+        simp only [run, hookRun, hhere, List.mem_singleton] at hev
+        exact ⟨.start, lv, Or.inl rfl, hev⟩
+      | none => simpa only [run] using hstep
+      | errFuture => simpa only [run] using hstep
+    | cons L' rest' => simpa only [run] using hstep
 
 theorem orphanEvents_spec (lines : List Frame) (total : Nat) (hl : lines.map levelTok = List.range total) :
     ∀ (rest : List Level) (i : Nat), i + rest.length = total →
